@@ -69,6 +69,27 @@ func GetArchivePathToLabel(repo string, labelName string) string {
 	return fmt.Sprint(GetArchivePathPrefixToLabels(repo), labelName, "/", labelDescriptorFile)
 }
 
+// labelNameReservedChars may not appear in a label name: "/" separates the components of the
+// archive path labels/{repo}/{label}/label.yaml, "#" separates a key from its version when
+// label versions are listed.
+const labelNameReservedChars = "/#"
+
+// ValidateLabelName checks that a label name may be stored: it must stand for exactly one
+// component of the archive path to the label, or the label (and all other labels of the
+// repo) could not be listed any more.
+func ValidateLabelName(name string) error {
+	switch {
+	case name == "":
+		return fmt.Errorf("empty field: label name is empty")
+	case name == "." || name == "..":
+		return fmt.Errorf("invalid name: label name:%s is reserved", name)
+	case strings.ContainsAny(name, labelNameReservedChars):
+		return fmt.Errorf("invalid name: label name:%s contains one of the unsupported characters %q",
+			name, labelNameReservedChars)
+	}
+	return nil
+}
+
 // ValidateLabel validates a label descriptor
 func ValidateLabel(label LabelDescriptor) error {
 	if label.Name == "" {
